@@ -376,6 +376,13 @@ class CallMixin:
                     if not (is_py(v, 'class') and v.py[1] == ts[6:-1]):
                         ok = False
                     continue
+                if ts.startswith('PyDict{'):
+                    # a dict display with exactly the keys the case names
+                    from .program import const_eval as _ce
+                    want = sorted(_ce(k) for k in ast.parse(ts[6:], mode='eval').body.keys)
+                    if not (is_py(v, 'pydict') and sorted(concrete_int(k.z) for k, _x in v.py[1]) == want):
+                        ok = False
+                    continue
                 t = parse_type(ts)
                 if isinstance(t, TPkt):
                     if not (isinstance(v.t, TPkt) and v.t.layers[:len(t.layers)] == t.layers):
